@@ -16,8 +16,23 @@ pub struct Violation {
 
 impl Violation {
     pub fn new(key: impl Into<String>, check: &str, msg: impl Into<String>, case: Value) -> Self {
+        // a tree that breaks a property everywhere produces millions of violations: beyond the first 20 000 only
+        // key, signature and the head of the message are kept (all of them are still counted and grouped)
+        static MADE: std::sync::atomic::AtomicU64 = std::sync::atomic::AtomicU64::new(0);
+        let n = MADE.fetch_add(1, std::sync::atomic::Ordering::Relaxed);
         let mut sig = BTreeMap::new();
         sig.insert("check".to_string(), check.to_string());
+        if n >= 20_000 {
+            let mut m: String = msg.into();
+            if m.len() > 160 {
+                let mut cut = 160;
+                while !m.is_char_boundary(cut) {
+                    cut -= 1;
+                }
+                m.truncate(cut);
+            }
+            return Violation { key: key.into(), sig, msg: m, case: Value::Null };
+        }
         Violation { key: key.into(), sig, msg: msg.into(), case }
     }
     pub fn with(mut self, k: &str, v: impl ToString) -> Self {
